@@ -7,6 +7,8 @@
  *  - a send that fails (queue full, drop mode) leaves the queue unchanged. */
 #include "vg.h"
 _Bool nondet_bool(void); int64_t nondet_i64(void);
+/* byte-loop memcpy (the built-in array copy with a symbolic length is far more expensive); bounded by header + payload size */
+void * memcpy(void * dst, const void * src, size_t n) { for (size_t i = 0; i < n; ++i) { ((uint8_t *) dst)[i] = ((const uint8_t *) src)[i]; } return dst; }
 static int vg_msg_locked, vg_proc_locked;
 static int64_t vg_now;
 static struct jls_bkt_s { int dummy; } vg_bk;
